@@ -23,6 +23,10 @@ REV = [  # reverting a fix commit (path restricted)
  ("c09_revert_f12", ["C09"], "524040d", "freezer/src/freezer_files.rs"),
  ("c09_revert_f1", ["C09"], "eb5b786", "freezer/src/freezer_files.rs"),
  ("c10_revert_f11", ["C10"], "71875e4", "store/src/store.rs"),
+ ("c16_revert_uncles_verifier", ["C16"], "2db54f8", "sync/src/relayer/block_uncles_verifier.rs"),
+ ("c19_revert_lc_genesis", ["C19"], "56ce3d7", "util/light-client-protocol-server/src/lib.rs"),
+ ("c19_revert_lc_start", ["C19"], "505c2ec", "util/light-client-protocol-server/src/components/get_last_state_proof.rs"),
+ ("c19_revert_lc_dup", ["C19"], "4be289c", "util/light-client-protocol-server/src/components/get_transactions_proof.rs"),
 ]
 def sh(cmd, **kw): return subprocess.run(cmd, shell=True, capture_output=True, text=True, **kw)
 def lock():
